@@ -16,7 +16,7 @@ RT = 'crates/anemo/src/routing/mod.rs'
 ROUTE = 'crates/anemo/src/routing/route.rs'
 NF = 'crates/anemo/src/routing/not_found.rs'
 RESP = 'crates/anemo/src/types/response.rs'
-COVER = {'router_histories': [0, 1, 2, 3, 4, 5]}
+COVER = {'router_histories': [0, 1, 2, 3, 4, 5, 6]}
 
 PRELUDE = r'''// GENERATED on every run by /verif/vc from /repo's working tree -- do not edit
 #![allow(dead_code, unused, non_upper_case_globals, non_camel_case_types)]
@@ -181,11 +181,13 @@ pub mod harness {
     // what the statement says a router is: (pattern, service, route-level middleware applied so far, innermost first)
     type Table = Vec<(String, u32, Vec<u32>)>;
     pub const STEPS: usize = 3;
-    fn build(ch: &mut Chooser, steps: usize, depth: u32, next_id: &mut u32) -> Option<(Router, Table)> {
+    fn build(ch: &mut Chooser, steps: usize, depth: u32, next_id: &mut u32, nesting: bool) -> Option<(Router, Table)> {
         let mut r = Router::new();
         let mut t: Table = Vec::new();
         for _ in 0..steps {
-            let op = ch.below(if depth == 0 { 5 } else { 3 });
+            // depth 0: route / middleware / stop / RPC service / merge; depth 1 (a router being merged): route / middleware / stop / merge (of a depth-2 router);
+            // depth 2: route / middleware / stop
+            let op = match (depth, ch.below(if depth == 0 { 5 } else if depth == 1 && nesting && t.is_empty() { 4 } else { 3 })) { (1, 3) => 4, (_, o) => o };
             match op {
                 0 | 3 => {     // a route (3: an RPC service under its name)
                     *next_id += 1; let id = *next_id;
@@ -202,7 +204,8 @@ pub mod harness {
                 1 => { *next_id += 1; let id = *next_id; r = r.route_layer(Tag(id)); for e in t.iter_mut() { e.2.push(id); } cover(1); }
                 2 => { if ch.any_bool() { cover(5); return Some((r, t)); } }     // stop early
                 _ => {         // merge another router (built with up to 2 operations of its own)
-                    let (o, ot) = match build(ch, 2, depth + 1, next_id) { Some(x) => x, None => return None };
+                    let (o, ot) = match build(ch, if depth == 0 { 2 } else { 1 }, depth + 1, next_id, nesting) { Some(x) => x, None => return None };
+                    if depth > 0 { cover(6); }
                     let clash = ot.iter().any(|e| t.iter().any(|f| f.0 == e.0));
                     let res = std::panic::catch_unwind(std::panic::AssertUnwindSafe(move || r.merge(o)));
                     match res {
@@ -214,9 +217,12 @@ pub mod harness {
         }
         Some((r, t))
     }
-    pub fn router_histories(ch: &mut Chooser) { // @EOBL [C16] @BOUNDED the real Router (route, add_rpc_service, merge, route_layer, call; RouteMatcher; RouteId::next with its static counter; Route; NotFound) on the model of matchit, for every history of STEPS operations (the thorough tier: one more) out of: register one of 5 patterns (exact paths, wildcard tails, the root) with a fresh service, register an RPC service under its name, apply a route-level middleware, merge another router built by up to 2 operations: registering a pattern twice (directly or through a merge) panics, nothing else does; then for EACH of 16 route strings (empty, odd and well-formed ones): the request is answered by exactly the service registered for the one pattern matching it, having passed exactly the route-level middleware applied after that route was registered (in order), or -- if no pattern matches -- by NotFound with no middleware run; routing never panics on any route string
+    pub fn router_histories(ch: &mut Chooser) { // @EOBL [C16] @BOUNDED the real Router (route, add_rpc_service, merge, route_layer, call; RouteMatcher; RouteId::next with its static counter; Route; NotFound) on the model of matchit, for every history of STEPS operations (the thorough tier: one more) out of: register one of 5 patterns (exact paths, wildcard tails, the root) with a fresh service, register an RPC service under its name, apply a route-level middleware, merge another router built by up to 2 operations (one of which may itself be the merge of a third router): registering a pattern twice (directly or through a merge) panics, nothing else does; then for EACH of 16 route strings (empty, odd and well-formed ones): the request is answered by exactly the service registered for the one pattern matching it, having passed exactly the route-level middleware applied after that route was registered (in order), or -- if no pattern matches -- by NotFound with no middleware run; routing never panics on any route string
         let mut next_id = 0u32;
-        let (router, table) = match build(ch, STEPS, 0, &mut next_id) { Some(x) => x, None => return };
+        // either STEPS operations whose merged routers are built from routes and middleware only, or one operation fewer with merged routers that may
+        // themselves have received routes by a merge
+        let nesting = ch.any_bool();
+        let (router, table) = match build(ch, if nesting { STEPS - 1 } else { STEPS }, 0, &mut next_id, nesting) { Some(x) => x, None => return };
         for q in QUERIES.iter() {
             let hits: Vec<&(String, u32, Vec<u32>)> = table.iter().filter(|e| pattern_matches(&e.0, q)).collect();
             assert!(hits.len() <= 1, "harness: two patterns of the pool match one route string");
